@@ -364,6 +364,8 @@ pub enum AddrRef {
     Fixed(Ipv4Addr),
     LastOffered,
     LastAcked,
+    /// the address most recently acknowledged to another client (index into `clients`)
+    AckedBy(usize),
 }
 
 #[derive(Clone, Debug, Serialize, Deserialize, PartialEq)]
@@ -1298,6 +1300,11 @@ pub fn generate_growth(seed: u64, thorough: bool) -> PlanA {
         steps.push(Step { at_ms: t, kind: mk(c, lan, 3, AddrRef::None, AddrRef::LastOffered, &mut r) });
         t += 200;
     }
+    /* one more machine, which only ever asks for other clients' addresses */
+    p.clients.truncate(nclients);
+    p.clients.push(ClientSpec { chaddr: vec![0x02, 0, 0, 0, 0x66, 0x01], client_id: None, hostname: None, lan: p.clients[0].lan });
+    let intruder = p.clients.len() - 1;
+    let mut intruder_steps: Vec<Step> = vec![];
     let n = r.range(8, if thorough { 40 } else { 26 });
     for _ in 0..n {
         let c = r.below(nclients as u64) as usize;
@@ -1327,6 +1334,16 @@ pub fn generate_growth(seed: u64, thorough: bool) -> PlanA {
             _ => mk(c, lan, 1, AddrRef::None, AddrRef::LastAcked, &mut r),
         };
         steps.push(Step { at_ms: t, kind });
+        {
+            /* a stranger names the address this client has just been given again: in the same
+             * second, a second later, or well into the lease */
+            let mut k = Rng::new(seed ^ t, "growth-intruder");
+            if k.chance(0.3) {
+                let dt = *k.pick(&[5u64, 5, 400, 1_000, 1_500, (pred[c] * 1000) / 3]);
+                let (mt, ci, rq) = if k.chance(0.5) { (1u8, AddrRef::None, AddrRef::AckedBy(c)) } else if k.chance(0.5) { (3u8, AddrRef::None, AddrRef::AckedBy(c)) } else { (3u8, AddrRef::AckedBy(c), AddrRef::None) };
+                intruder_steps.push(Step { at_ms: t + dt, kind: mk(intruder, lan, mt, ci, rq, &mut r) });
+            }
+        }
         if r.chance(0.06) {
             t += 50;
             steps.push(Step { at_ms: t, kind: StepKind::Restart { cfg: 0 } });
@@ -1336,6 +1353,8 @@ pub fn generate_growth(seed: u64, thorough: bool) -> PlanA {
             steps.push(Step { at_ms: t, kind: StepKind::ClockJump(*r.pick(&[-2i64, 3, 100, 4000])) });
         }
     }
+    steps.extend(intruder_steps);
+    steps.sort_by_key(|s| s.at_ms);
     p.steps = steps;
     p.pair_split = None;
     p
